@@ -25,7 +25,15 @@ impl Scenario for C03 {
         g.drain_all = cs.choose("drain_all", 4) != 0;
         g.body_factor = 3;
         g.frame_max_choices = vec![(0, 4096), (4096, 131072), (0, 8192), (8192, 4096)];
-        let gen = gen_session(&mut cs, &g);
+        let mut gen = gen_session(&mut cs, &g);
+        // one session in eight carries very large bodies (around 64 KiB, 1 MiB and 2 MiB)
+        let big = cs.choose("big_bodies", 8) == 0;
+        if big {
+            gen.broker.body_max = *pick(&mut cs, "big_body_max", &[65_536usize, (1 << 20) - 1, 1 << 20, (1 << 20) + 1, (2 << 20) + 5]);
+            gen.broker.seg_mode = pick(&mut cs, "big_seg", &[crate::broker::SegMode::Whole, crate::broker::SegMode::Mtu]).clone();
+            gen.broker.deliveries_max = 2;
+            gen.net.rd_short_permille = 0;
+        }
         let (res, world) = run_generated(&gen, cs, text, |_| {});
         let mut rep = CaseReport::default();
         fill_common(&mut rep, &res, &world);
@@ -48,6 +56,7 @@ impl Scenario for C03 {
         let n = world.net.lock().unwrap();
         rep.nontrivial = multi && (world.broker.stats.mux_interleaves > 0 || n.stats.would_block_reads > 3);
         rep.count("probe.multi_frame_content", multi as u64);
+        rep.count("probe.big_body_sessions", big as u64);
         rep.distinct = rep.trace_hash;
         rep
     }
